@@ -92,10 +92,30 @@ def templates_in_contexts(run):
         run.transitions += len(seen)
 
 
+def crunched_programs(run):
+    """the catalogue and every template x operand shape with all optional blanks removed (PALETTERGB, HBUFF1,600, IFA=1THEN..)"""
+    n = 0
+    for name, stmt, alt in K.CATALOGUE:
+        yield K.crunch(K.program_for([stmt])), f"crunched:{name}"
+        n += 1
+    for name, body, after in K.TEMPLATES:
+        seen = set()
+        for how, sh in template_combos(body, full=False):
+            text = K.crunch(K.template_program(K.fill(body, sh), after))
+            if text in seen:
+                continue
+            seen.add(text)
+            yield text, f"crunched-tpl:{name}:{how}"
+        n += len(seen)
+    run.states += n
+    run.transitions += n
+
+
 def all_programs(run):
     yield from catalogue_in_contexts(run)
     yield from templates_plain(run)
     yield from templates_in_contexts(run)
+    yield from crunched_programs(run)
 
 
 # ------------------------------------------------------------------ FOR/NEXT structures
